@@ -1,5 +1,642 @@
 package main
 
-func checkMain(args []string) int    { return 2 }
-func replayMain(args []string) int   { return 2 }
+import (
+	"bufio"
+	"bytes"
+	"crypto/sha256"
+	"encoding/hex"
+	"encoding/json"
+	"flag"
+	"fmt"
+	"os"
+	"os/exec"
+	"path/filepath"
+	"runtime"
+	"sort"
+	"strconv"
+	"strings"
+	"time"
+
+	"gosx/interp"
+)
+
+type HarnessCfg struct {
+	ID       string         `json:"id"`
+	Quick    map[string]int `json:"quick"`
+	Thorough map[string]int `json:"thorough"`
+	Reach    []string       `json:"reach"`
+	MaxSteps int64          `json:"max_steps"`
+	Note     string         `json:"note"`
+	ThoroughOnly bool       `json:"thorough_only"`
+}
+
+type CheckCfg struct {
+	Title       string       `json:"title"`
+	Harnesses   []HarnessCfg `json:"harnesses"`
+	Assumptions []string     `json:"assumptions"`
+	Stubs       []string     `json:"stubs"`
+	Outside     []string     `json:"outside"`
+}
+
+func loadChecks() (map[string]CheckCfg, error) {
+	data, err := os.ReadFile(filepath.Join(verifDir, "checks.json"))
+	if err != nil {
+		return nil, err
+	}
+	var m map[string]CheckCfg
+	if err := json.Unmarshal(data, &m); err != nil {
+		return nil, fmt.Errorf("checks.json: %v", err)
+	}
+	return m, nil
+}
+
+type KnownEntry struct {
+	Property string
+	Harness  string
+	Pred     interp.KnownPred
+	Desc     string
+}
+
+// known_findings.txt line format:
+//   finding: property=C01 harness=js.VerifLexW label=<substring> tag=b kind=input-prefix bytes=23 arg.x=1 :: description
+//   fixed: property=C01 <commit> <what failed>
+func loadKnown(prop string) ([]KnownEntry, error) {
+	f, err := os.Open(filepath.Join(verifDir, "known_findings.txt"))
+	if err != nil {
+		if os.IsNotExist(err) {
+			return nil, nil
+		}
+		return nil, err
+	}
+	defer f.Close()
+	var out []KnownEntry
+	sc := bufio.NewScanner(f)
+	n := 0
+	for sc.Scan() {
+		line := strings.TrimSpace(sc.Text())
+		if !strings.HasPrefix(line, "finding:") {
+			continue
+		}
+		n++
+		line = strings.TrimPrefix(line, "finding:")
+		desc := ""
+		if i := strings.Index(line, "::"); i >= 0 {
+			desc = strings.TrimSpace(line[i+2:])
+			line = line[:i]
+		}
+		e := KnownEntry{Desc: desc}
+		e.Pred.Arg = map[string]int64{}
+		for _, kv := range strings.Fields(line) {
+			p := strings.SplitN(kv, "=", 2)
+			if len(p) != 2 {
+				continue
+			}
+			switch {
+			case p[0] == "property":
+				e.Property = p[1]
+			case p[0] == "harness":
+				e.Harness = p[1]
+			case p[0] == "label":
+				e.Pred.Label = strings.ReplaceAll(p[1], "_", " ")
+			case p[0] == "tag":
+				e.Pred.Tag = p[1]
+			case p[0] == "kind":
+				e.Pred.Kind = p[1]
+			case p[0] == "bytes":
+				b, err := hex.DecodeString(p[1])
+				if err != nil {
+					return nil, fmt.Errorf("known_findings: bad hex %q", p[1])
+				}
+				e.Pred.Bytes = b
+			case strings.HasPrefix(p[0], "arg."):
+				v, _ := strconv.ParseInt(p[1], 10, 64)
+				e.Pred.Arg[p[0][4:]] = v
+			}
+		}
+		e.Pred.ID = fmt.Sprintf("%s#%d %s", e.Property, n, desc)
+		if e.Pred.Kind == "" {
+			e.Pred.Kind = "args"
+		}
+		if e.Property == prop {
+			out = append(out, e)
+		}
+	}
+	return out, nil
+}
+
+type Evidence struct {
+	PropertyID  string                 `json:"property_id"`
+	Tier        string                 `json:"tier"`
+	Seed        int                    `json:"seed"`
+	Level       string                 `json:"level"`
+	Coverage    map[string]interface{} `json:"coverage"`
+	Assumptions []string               `json:"assumptions"`
+	WallS       float64                `json:"wall_s"`
+	Violations  int                    `json:"violations"`
+}
+
+func srcHash(paths []string) string {
+	h := sha256.New()
+	sort.Strings(paths)
+	for _, p := range paths {
+		b, _ := os.ReadFile(p)
+		h.Write([]byte(p))
+		h.Write(b)
+	}
+	return hex.EncodeToString(h.Sum(nil))[:16]
+}
+
+func checkMain(args []string) int {
+	fs := flag.NewFlagSet("check", flag.ExitOnError)
+	tier := fs.String("tier", envOr("VERIF_TIER", "quick"), "quick|thorough")
+	nw := fs.Int("w", 0, "workers")
+	only := fs.String("only", "", "run only harnesses whose id contains this")
+	noNative := fs.Bool("no-native", false, "skip native trace validation (development)")
+	var id string
+	if len(args) > 0 && !strings.HasPrefix(args[0], "-") {
+		id = args[0]
+		args = args[1:]
+	}
+	fs.Parse(args)
+	if id == "" && fs.NArg() > 0 {
+		id = fs.Arg(0)
+	}
+	if id == "" {
+		usage()
+	}
+	seed, _ := strconv.Atoi(os.Getenv("VERIF_SEED"))
+	t0 := time.Now()
+	checks, err := loadChecks()
+	if err != nil {
+		fmt.Fprintln(os.Stderr, "error:", err)
+		return 2
+	}
+	cfg, ok := checks[id]
+	if !ok {
+		fmt.Fprintf(os.Stderr, "no check registered for %s\n", id)
+		return 2
+	}
+	known, err := loadKnown(id)
+	if err != nil {
+		fmt.Fprintln(os.Stderr, "error:", err)
+		return 2
+	}
+	dirSet := map[string]bool{}
+	var hs []HarnessCfg
+	for _, h := range cfg.Harnesses {
+		if *only != "" && !strings.Contains(h.ID, *only) {
+			continue
+		}
+		if h.ThoroughOnly && *tier != "thorough" {
+			continue
+		}
+		hs = append(hs, h)
+		dirSet[strings.SplitN(h.ID, ".", 2)[0]] = true
+	}
+	var dirs []string
+	for d := range dirSet {
+		dirs = append(dirs, d)
+	}
+	sort.Strings(dirs)
+	workers := *nw
+	if workers == 0 {
+		workers = runtime.NumCPU()
+		if workers > 16 {
+			workers = 16
+		}
+	}
+	pool, err := newPool(workers, dirs)
+	if err != nil {
+		fmt.Fprintln(os.Stderr, "error:", err)
+		return 2
+	}
+	defer pool.stop()
+
+	inconclusive := []string{}
+	var sums []*Summary
+	var allTraces []Trace
+	type cand struct {
+		h string
+		p map[string]int
+		v interp.Violation
+	}
+	var cands []cand
+	knownHits := map[string]int{}
+	totalPaths, totalDec := 0, int64(0)
+	var samples []interface{}
+	reachAll := map[string]int{}
+	bounds := map[string]interface{}{}
+	gwrites := map[string]int{}
+	for _, h := range hs {
+		params := h.Quick
+		if *tier == "thorough" && h.Thorough != nil {
+			params = h.Thorough
+		}
+		if params == nil {
+			params = map[string]int{}
+		}
+		var kp []interp.KnownPred
+		for _, k := range known {
+			if k.Harness == "" || k.Harness == h.ID {
+				kp = append(kp, k.Pred)
+			}
+		}
+		traceEvery := 10
+		if *tier == "thorough" {
+			traceEvery = 4
+		}
+		sum := pool.explore(h.ID, params, ExploreOpts{TraceEvery: traceEvery, Known: kp, MaxSteps: h.MaxSteps, Seed: int64(seed)})
+		fmt.Fprintln(os.Stderr, sum)
+		sums = append(sums, sum)
+		bounds[h.ID] = params
+		totalPaths += sum.Paths
+		totalDec += sum.Decisions
+		if sum.EngineErrs > 0 {
+			inconclusive = append(inconclusive, fmt.Sprintf("%s: %d engine errors (%s)", h.ID, sum.EngineErrs, strings.Join(sum.EngineMsgs, "; ")))
+		}
+		if sum.Budget > 0 {
+			inconclusive = append(inconclusive, fmt.Sprintf("%s: %d paths hit the step/depth budget (unwinding assertion)", h.ID, sum.Budget))
+		}
+		if sum.PathLimitHit {
+			inconclusive = append(inconclusive, h.ID+": path limit hit")
+		}
+		if sum.Paths == 0 {
+			inconclusive = append(inconclusive, h.ID+": vacuous (no completed path)")
+		}
+		for _, l := range h.Reach {
+			if sum.Reach[l] == 0 {
+				inconclusive = append(inconclusive, fmt.Sprintf("%s: vacuous: reach label %q not covered", h.ID, l))
+			}
+		}
+		for l, n := range sum.Reach {
+			reachAll[h.ID+":"+l] = n
+		}
+		for gw, n := range sum.GlobalWrites {
+			gwrites[gw] += n
+		}
+		for _, v := range sum.Viol {
+			if v.Known != "" {
+				knownHits[v.Known] += sum.ViolCount[v.Kind+"|"+v.Label+"|"+v.Known]
+				continue
+			}
+			cands = append(cands, cand{h.ID, params, v})
+		}
+		// cap traces per harness
+		tr := sum.Traces
+		maxTr := 400
+		if *tier == "thorough" {
+			maxTr = 3000
+		}
+		if len(tr) > maxTr {
+			step := len(tr) / maxTr
+			var t2 []Trace
+			for i := 0; i < len(tr); i += step + 1 {
+				t2 = append(t2, tr[i])
+			}
+			tr = t2
+		}
+		allTraces = append(allTraces, tr...)
+		for i, s := range sum.Samples {
+			if i < 4 {
+				samples = append(samples, s)
+			}
+		}
+	}
+	st := pool.stats()
+	if st.St.Unknowns > 0 {
+		inconclusive = append(inconclusive, fmt.Sprintf("%d solver queries returned unknown on every back end", st.St.Unknowns))
+	}
+	if st.St.CapHits > 0 {
+		inconclusive = append(inconclusive, fmt.Sprintf("%d concretisations exceeded the value cap", st.St.CapHits))
+	}
+
+	// native validation: sampled traces + every violation candidate
+	validated, mismatches := 0, []string{}
+	confirmed := []cand{}
+	if !*noNative {
+		var cases []Trace
+		cases = append(cases, allTraces...)
+		for _, c := range cands {
+			st := "assert"
+			if c.v.Kind == "panic" {
+				st = "panic"
+			}
+			cases = append(cases, Trace{Harness: c.h, Params: c.p, Model: c.v.Model, Status: st, Label: c.v.Label, Observe: nil, Inputs: c.v.Inputs})
+		}
+		results, err := nativeRun(cases)
+		if err != nil {
+			inconclusive = append(inconclusive, "native replay failed: "+err.Error())
+		} else {
+			for i, c := range cases {
+				r := results[i]
+				isCand := i >= len(allTraces)
+				if isCand {
+					cd := cands[i-len(allTraces)]
+					okc := false
+					switch cd.v.Kind {
+					case "assert":
+						okc = r.Status == "assert" && r.Label == cd.v.Label
+					case "panic":
+						okc = r.Status == "panic" || r.Status == "crash" || r.Status == "hang"
+					}
+					if okc {
+						confirmed = append(confirmed, cd)
+					} else {
+						mismatches = append(mismatches, fmt.Sprintf("%s: engine found %s %q with inputs %v but native run gave %s %q", cd.h, cd.v.Kind, cd.v.Label, cd.v.Inputs, r.Status, r.Label))
+					}
+					continue
+				}
+				if r.Status != c.Status {
+					mismatches = append(mismatches, fmt.Sprintf("%s inputs %v: engine status %s, native %s %q", c.Harness, c.Inputs, c.Status, r.Status, r.Label))
+					continue
+				}
+				if c.Status == "ok" && !equalStrs(c.Observe, r.Observe) {
+					mismatches = append(mismatches, fmt.Sprintf("%s inputs %v: observation traces differ:\n  engine: %v\n  native: %v", c.Harness, c.Inputs, c.Observe, r.Observe))
+					continue
+				}
+				validated++
+			}
+		}
+	} else {
+		confirmed = cands
+	}
+	if len(gwrites) > 0 {
+		for gw, n := range gwrites {
+			confirmedGW := fmt.Sprintf("library code writes package-level state: %s (x%d)", gw, n)
+			fmt.Fprintln(os.Stderr, "GLOBAL-WRITE:", confirmedGW)
+		}
+	}
+
+	// report
+	exit := 0
+	for _, k := range known {
+		if knownHits[k.Pred.ID] > 0 {
+			fmt.Printf("KNOWN-FINDING: property=%s %s\n", id, k.Desc)
+		}
+	}
+	nviol := 0
+	if len(confirmed) > 0 {
+		os.MkdirAll(filepath.Join(verifDir, "replays", id), 0755)
+		for i, c := range confirmed {
+			nviol++
+			path := filepath.Join(verifDir, "replays", id, fmt.Sprintf("%s-%d.json", strings.ReplaceAll(c.h, ".", "_"), i))
+			st := "assert"
+			if c.v.Kind == "panic" {
+				st = "panic"
+			}
+			js, _ := json.MarshalIndent(map[string]interface{}{"property": id, "harness": c.h, "params": c.p, "model": c.v.Model, "status": st, "kind": c.v.Kind, "label": c.v.Label, "msg": c.v.Msg, "inputs": c.v.Inputs, "where": c.v.Where}, "", " ")
+			os.WriteFile(path, js, 0644)
+			fmt.Fprintf(os.Stderr, "violation: %s %s %q inputs=%v %s\n", c.h, c.v.Kind, c.v.Label, c.v.Inputs, c.v.Msg)
+			fmt.Printf("VIOLATION property=%s replay=%s\n", id, path)
+		}
+		exit = 1
+	}
+	if id == "C20" && len(gwrites) > 0 {
+		// global writes are the C20 violation; replay = first sample path
+		os.MkdirAll(filepath.Join(verifDir, "replays", id), 0755)
+		path := filepath.Join(verifDir, "replays", id, "global-writes.json")
+		js, _ := json.MarshalIndent(gwrites, "", " ")
+		os.WriteFile(path, js, 0644)
+		fmt.Printf("VIOLATION property=%s replay=%s\n", id, path)
+		nviol++
+		exit = 1
+	}
+	if len(mismatches) > 0 {
+		for _, m := range mismatches {
+			fmt.Fprintln(os.Stderr, "ENGINE-MISMATCH:", m)
+		}
+		if exit == 0 {
+			exit = 3
+		}
+	}
+	if len(inconclusive) > 0 {
+		for _, m := range inconclusive {
+			fmt.Fprintln(os.Stderr, "INCONCLUSIVE:", m)
+		}
+		if exit == 0 {
+			exit = 2
+		}
+	}
+
+	// evidence
+	var files []string
+	for _, d := range dirs {
+		fl, _ := filepath.Glob(filepath.Join(repoDir, pkgDirs[d], "*.go"))
+		for _, f := range fl {
+			if !strings.HasSuffix(f, "_test.go") {
+				files = append(files, f)
+			}
+		}
+	}
+	var libFuncs []string
+	for _, f := range st.Funcs {
+		if strings.Contains(f, "tdewolff/parse") && !strings.Contains(f, ".Verif") && !strings.Contains(f, ".vn") && !strings.Contains(f, ".ref") {
+			libFuncs = append(libFuncs, strings.ReplaceAll(f, "github.com/tdewolff/parse/v2", "parse"))
+		}
+	}
+	if len(samples) == 0 {
+		samples = append(samples, "none")
+	}
+	harnessIDs := []string{}
+	for _, h := range hs {
+		harnessIDs = append(harnessIDs, h.ID)
+	}
+	ev := Evidence{PropertyID: id, Tier: *tier, Seed: seed, Level: "model_checking", WallS: time.Since(t0).Seconds(), Violations: nviol,
+		Assumptions: append(append([]string{}, cfg.Assumptions...), "SMT solvers z3 4.8.12 (primary), cvc5/z3-new (fallback) are sound", "the symbolic interpreter (fork of go/ssa/interp) agrees with the Go compiler; checked on the sampled traces replayed natively"),
+		Coverage: map[string]interface{}{
+			"states":                        totalPaths,
+			"transitions":                   totalDec,
+			"traces_validated_against_impl": validated,
+			"samples":                       samples,
+			"exhaustive":                    len(inconclusive) == 0,
+			"explanation":                   "states = completed symbolic paths (each an equivalence class of inputs, decided by the SMT solver); transitions = symbolic branch decisions along them; exploration is exhaustive within the bounds given under 'bounds'",
+			"harnesses":                     harnessIDs,
+			"bounds":                        bounds,
+			"functions_encoded":             libFuncs,
+			"source_hash":                   srcHash(files),
+			"queries":                       map[string]interface{}{"smt": st.St.Queries, "decided_by_current_model": st.St.ModelHits, "fallback_portfolio": st.St.Fallbacks, "unknown": st.St.Unknowns, "assertions_checked": st.St.AssertsChk, "assertions_inherited_from_prefix": st.St.AssertsInh, "region_decisions": st.St.Regions},
+			"solver_time_s":                 st.SolverS,
+			"ssa_steps":                     st.St.Steps,
+			"reach_labels":                  reachAll,
+			"known_findings_matched":        knownHits,
+			"inconclusive":                  inconclusive,
+			"engine_mismatches":             mismatches,
+			"stubs":                         cfg.Stubs,
+			"outside_the_claim":             cfg.Outside,
+			"global_writes":                 gwrites,
+		},
+	}
+	os.MkdirAll(filepath.Join(verifDir, "evidence"), 0755)
+	js, _ := json.MarshalIndent(ev, "", " ")
+	os.WriteFile(filepath.Join(verifDir, "evidence", id+".json"), js, 0644)
+	fmt.Fprintf(os.Stderr, "%s %s: paths=%d decisions=%d queries=%d solver=%.1fs validated=%d violations=%d known=%d exit=%d wall=%.1fs\n", id, *tier, totalPaths, totalDec, st.St.Queries, st.SolverS, validated, nviol, len(knownHits), exit, time.Since(t0).Seconds())
+	return exit
+}
+
+func equalStrs(a, b []string) bool {
+	if len(a) != len(b) {
+		return false
+	}
+	for i := range a {
+		if a[i] != b[i] {
+			return false
+		}
+	}
+	return true
+}
+
+type NativeResult struct {
+	Index   int      `json:"index"`
+	Status  string   `json:"status"`
+	Label   string   `json:"label"`
+	Observe []string `json:"observe"`
+	Reach   []string `json:"reach"`
+}
+
+// nativeRun replays cases against the natively compiled library (go test -overlay).
+func nativeRun(cases []Trace) ([]NativeResult, error) {
+	results := make([]NativeResult, len(cases))
+	byDir := map[string][]int{}
+	for i, c := range cases {
+		d := strings.SplitN(c.Harness, ".", 2)[0]
+		byDir[d] = append(byDir[d], i)
+	}
+	tmp, err := os.MkdirTemp("", "vpreplay")
+	if err != nil {
+		return nil, err
+	}
+	defer os.RemoveAll(tmp)
+	for dir, idxs := range byDir {
+		ov, _, err := overlayFiles(map[string]bool{dir: true})
+		if err != nil {
+			return nil, err
+		}
+		tmpl, err := os.ReadFile(filepath.Join(verifDir, "harness", "replay_test.go.tmpl"))
+		if err != nil {
+			return nil, err
+		}
+		base := filepath.Join(repoDir, pkgDirs[dir])
+		ov[filepath.Join(base, "zz_verif_replay_test.go")] = bytes.ReplaceAll(tmpl, []byte("PKGNAME"), []byte(pkgNameOf(dir)))
+		repl := map[string]string{}
+		n := 0
+		for virt, src := range ov {
+			real := filepath.Join(tmp, fmt.Sprintf("%s_%d_%s", dir, n, filepath.Base(virt)))
+			n++
+			if err := os.WriteFile(real, src, 0644); err != nil {
+				return nil, err
+			}
+			repl[virt] = real
+		}
+		ovjs, _ := json.Marshal(map[string]interface{}{"Replace": repl})
+		ovPath := filepath.Join(tmp, dir+"_overlay.json")
+		os.WriteFile(ovPath, ovjs, 0644)
+		type nc struct {
+			Harness string         `json:"harness"`
+			Params  map[string]int `json:"params"`
+			Model   interp.Model   `json:"model"`
+		}
+		var ncs []nc
+		for _, i := range idxs {
+			ncs = append(ncs, nc{strings.SplitN(cases[i].Harness, ".", 2)[1], cases[i].Params, cases[i].Model})
+		}
+		cjs, _ := json.Marshal(ncs)
+		casePath := filepath.Join(tmp, dir+"_cases.json")
+		os.WriteFile(casePath, cjs, 0644)
+		outPath := filepath.Join(tmp, dir+"_out.txt")
+		pkgPat := "./" + pkgDirs[dir]
+		if pkgDirs[dir] == "" {
+			pkgPat = "."
+		}
+		// build the test binary once, run it (restarting after a crash)
+		bin := filepath.Join(tmp, dir+".test")
+		build := exec.Command("go", "test", "-c", "-o", bin, "-tags", "verif", "-vet=off", "-overlay", ovPath, pkgPat)
+		build.Dir = repoDir
+		build.Env = append(os.Environ(), "GOFLAGS=-mod=mod", "GOPROXY=off", "GOSUMDB=off", "GOTOOLCHAIN=local")
+		if out, err := build.CombinedOutput(); err != nil {
+			return nil, fmt.Errorf("native build of %s failed: %v\n%s", dir, err, out)
+		}
+		start := 0
+		for start < len(ncs) {
+			run := exec.Command(bin, "-test.run", "^TestVerifReplay$", "-test.count=1", "-test.timeout=30m")
+			run.Dir = base
+			run.Env = append(os.Environ(), "VERIF_REPLAY="+casePath, "VERIF_REPLAY_OUT="+outPath, fmt.Sprintf("VERIF_REPLAY_START=%d", start))
+			outb, runErr := run.CombinedOutput()
+			data, _ := os.ReadFile(outPath)
+			lastBegin, lastEnd := -1, -1
+			for _, line := range strings.Split(string(data), "\n") {
+				if strings.HasPrefix(line, "BEGIN ") {
+					lastBegin, _ = strconv.Atoi(line[6:])
+				} else if strings.HasPrefix(line, "END ") {
+					var r NativeResult
+					if json.Unmarshal([]byte(line[4:]), &r) == nil {
+						results[idxs[r.Index]] = r
+						lastEnd = r.Index
+					}
+				}
+			}
+			if runErr == nil && lastEnd == len(ncs)-1 {
+				break
+			}
+			if lastBegin > lastEnd {
+				// process died inside case lastBegin
+				tail := string(outb)
+				if len(tail) > 300 {
+					tail = tail[:300]
+				}
+				results[idxs[lastBegin]] = NativeResult{Index: lastBegin, Status: "crash", Label: firstLine(tail)}
+				start = lastBegin + 1
+				continue
+			}
+			if runErr != nil {
+				return nil, fmt.Errorf("native run of %s failed: %v\n%s", dir, runErr, outb)
+			}
+			break
+		}
+	}
+	return results, nil
+}
+
+func firstLine(s string) string {
+	if i := strings.Index(s, "\n"); i >= 0 {
+		return s[:i]
+	}
+	return s
+}
+
+func replayMain(args []string) int {
+	if len(args) < 1 {
+		usage()
+	}
+	data, err := os.ReadFile(args[0])
+	if err != nil {
+		fmt.Fprintln(os.Stderr, err)
+		return 2
+	}
+	var rec struct {
+		Property string         `json:"property"`
+		Harness  string         `json:"harness"`
+		Params   map[string]int `json:"params"`
+		Model    interp.Model   `json:"model"`
+		Status   string         `json:"status"`
+		Label    string         `json:"label"`
+		Inputs   map[string]string `json:"inputs"`
+	}
+	if err := json.Unmarshal(data, &rec); err != nil {
+		fmt.Fprintln(os.Stderr, err)
+		return 2
+	}
+	res, err := nativeRun([]Trace{{Harness: rec.Harness, Params: rec.Params, Model: rec.Model}})
+	if err != nil {
+		fmt.Fprintln(os.Stderr, err)
+		return 2
+	}
+	r := res[0]
+	fmt.Printf("harness=%s inputs=%v\nnative outcome: %s %s\nobservations: %v\n", rec.Harness, rec.Inputs, r.Status, r.Label, r.Observe)
+	if r.Status == "assert" || r.Status == "panic" || r.Status == "crash" || r.Status == "hang" {
+		fmt.Printf("VIOLATION property=%s replay=%s\n", rec.Property, args[0])
+		return 1
+	}
+	return 0
+}
+
 func selftestMain(args []string) int { return 0 }
